@@ -47,8 +47,8 @@ class IdentityEliminationPass(ir.passes.InPlacePass):
        of any graph, replace all uses of `y` with a use of `x`, and remove the node.
     2. If `y` is an output of a graph, and `x` is not an input of any graph,
        we can still do the elimination, but the value `x` should be renamed to be `y`.
-    3. If `y` is a graph-output and `x` is a graph-input, we cannot eliminate
-       the node. It should be retained.
+    3. If `y` is a graph-output and `x` is a graph-input, an initializer, or a value
+       captured from an outer scope, we cannot eliminate the node. It should be retained.
     """
 
     def call(self, model: ir.Model) -> ir.passes.PassResult:
@@ -94,8 +94,12 @@ class IdentityEliminationPass(ir.passes.InPlacePass):
         output_is_graph_output = output_value.is_graph_output()
 
         # Case 3: Both node output is graph output and node input is graph input or initializer - keep the node
+        # The same holds when the input is a value captured from an outer scope: a graph
+        # output must be produced inside the graph it belongs to.
         if output_is_graph_output and (
-            input_value.is_graph_input() or input_value.is_initializer()
+            input_value.is_graph_input()
+            or input_value.is_initializer()
+            or input_value.graph is not graph_like
         ):
             return False
 
